@@ -116,5 +116,17 @@ void harness(void) {
     }
     CHECK(nvm_deserialize(buf, size) == NULL, "wrong magic / version / stored checksum refused");
     WITNESS("header damage done");
+#elif MODE == 4
+    /* C19: the file is a function of the module's semantic content only: stale / bookkeeping fields (stored checksum,
+     * cached pool offsets, section table, counts of a previous load) have no influence on the bytes written */
+    ND(uint32_t, in_j0); ND(uint32_t, in_j1); ND(uint32_t, in_j2); ND(uint32_t, in_j3); ND_ARR(uint32_t, in_sec, 6);
+    m->header.checksum = in_j0; m->header.string_pool_offset = in_j1; m->header.string_pool_length = in_j2; m->header.section_count = in_j3;
+    m->section_count = in_j3;
+    for (int i = 0; i < 2; i++) { m->sections[i].type = in_sec[3 * i]; m->sections[i].offset = in_sec[3 * i + 1]; m->sections[i].size = in_sec[3 * i + 2]; }
+    uint32_t size2 = 0;
+    uint8_t *buf2 = nvm_serialize(m, &size2);
+    CHECK(buf2 != NULL && size2 == size, "same module content => same file size");
+    if (buf2 && size2 == size) for (uint32_t i = 0; i < FILEMAX; i++) if (i < size) CHECK(buf2[i] == buf[i], "same module content => byte-identical file (no dependence on stale bookkeeping fields or memory contents)");
+    WITNESS("determinism done");
 #endif
 }
